@@ -438,6 +438,19 @@ func (env *SpecEnv) evalIdent(name string) (TV, error) {
 		if p, ok := ex.params[name]; ok {
 			return p, nil
 		}
+		if !env.isPrePost && env.inOld {
+			// inside old(...) of an invariant or assertion a local variable (which has no entry value) denotes its
+			// current value; heap reads and parameters are taken in the entry state
+			if a := ex.lookupLocal(name, env.loop); a != nil {
+				if ex.isLocalCell(a) {
+					return TV{ex.load(env.st, LocLocal{a}), a.Type().(*types.Pointer).Elem()}, nil
+				}
+				if r, ok := ex.regs[a]; ok {
+					et := a.Type().(*types.Pointer).Elem()
+					return TV{ex.load(env.st, LocDeref{r, et}), et}, nil
+				}
+			}
+		}
 		for _, fv := range ex.fn.FreeVars {
 			if fv.Name() == name {
 				// captured variable: a pointer to the enclosing function's cell, or the value itself
@@ -478,6 +491,15 @@ func (env *SpecEnv) evalDollar(name string) (TV, error) {
 		}
 		return TV{Ge(ex.load(env.state(), LocLocal{l.rangeIdx}), n), types.Typ[types.Bool]}, nil
 	}
+	if env.calleeFn == nil && (name == "selected" || name == "recvok") {
+		if name == "selected" {
+			return TV{ex.ghostGet(env.state(), "sel:idx"), types.Typ[types.Int]}, nil
+		}
+		if t, ok := env.state().ghost["sel:ok"]; ok {
+			return TV{t, types.Typ[types.Bool]}, nil
+		}
+		return TV{TFalse, types.Typ[types.Bool]}, nil
+	}
 	// ghost observations of call results
 	if env.calleeFn != nil {
 		if con := ex.P.contractOf(env.calleeFn); con != nil {
@@ -500,13 +522,19 @@ func (env *SpecEnv) evalDollar(name string) (TV, error) {
 		for callee, v := range ex.con.Observe {
 			if v == name {
 				var srt Sort = SBool
-				if f := ex.P.calleeByShortName(ex.fn, callee); f != nil && f.Signature.Results().Len() > 0 {
+				var otyp types.Type
+				if f := ex.P.calleeByShortName(ex.fn, callee); f != nil && f.Signature.Results().Len() > 0 && !strings.Contains(callee, "#") {
 					srt = ex.vc.sortOf(f.Signature.Results().At(0).Type())
+					// the Go type is kept for struct results only (field selection on the observation); other
+					// observations stay untyped as before
+					if _, isStruct := f.Signature.Results().At(0).Type().Underlying().(*types.Struct); isStruct {
+						otyp = f.Signature.Results().At(0).Type()
+					}
 				}
 				if t, ok := env.st.ghost["obs:"+name]; ok {
-					return TV{t, nil}, nil
+					return TV{t, otyp}, nil
 				}
-				return TV{ex.vc.zeroOfSort(srt, nil), nil}, nil
+				return TV{ex.vc.zeroOfSort(srt, nil), otyp}, nil
 			}
 		}
 	}
@@ -1472,10 +1500,39 @@ func (env *SpecEnv) methodCall(recv TV, name string, args []TV) (TV, error) {
 	if recv.t.sort == SInt && (name == "Nanoseconds") {
 		return TV{recv.t, types.Typ[types.Int64]}, nil
 	}
+	// interface methods on the pure list (reflect.Type, error.Error, ...): the same uninterpreted symbol the code uses
+	if tm != nil && env.ex.P.isPureMethod(name, tm) {
+		if obj, _, _ := types.LookupFieldOrMethod(tm, true, env.pkg(), name); obj != nil {
+			if f, ok := obj.(*types.Func); ok {
+				sig := f.Type().(*types.Signature)
+				ts := []T{recv.t}
+				for _, a := range args {
+					ts = append(ts, a.t)
+				}
+				rs := env.ex.pureCall(env.st, "iface."+shortTypeName(tm)+"."+name, sig, ts)
+				if len(rs) > 0 {
+					return TV{rs[0], sig.Results().At(0).Type()}, nil
+				}
+			}
+		}
+	}
 	return TV{}, fmt.Errorf("unsupported method %s in specification", name)
 }
 
 func (env *SpecEnv) pkgFuncCall(pkg, name string, args []TV) (TV, error) {
+	// library functions the executor models by a definition rather than by an uninterpreted symbol: the same definition
+	if ip := env.importedPkg(pkg); ip != nil && ip.Path() == "strings" && len(args) == 2 && args[0].t.sort == SStr && args[1].t.sort == SStr {
+		ln := func(x T) T { return mk(SInt, "gs.len", x) }
+		s, p := args[0].t, args[1].t
+		switch name {
+		case "HasPrefix":
+			env.ex.vc.needStrings()
+			return TV{And(Le(ln(p), ln(s)), Eq(env.ex.strSub(s, IntLit(0), ln(p)), p)), types.Typ[types.Bool]}, nil
+		case "HasSuffix":
+			env.ex.vc.needStrings()
+			return TV{And(Le(ln(p), ln(s)), Eq(env.ex.strSub(s, Sub(ln(s), ln(p)), ln(s)), p)), types.Typ[types.Bool]}, nil
+		}
+	}
 	// library functions on the pure list: the same uninterpreted symbol the code-side call uses
 	if pk := env.importedPkg(pkg); pk != nil {
 		full := pk.Path() + "." + name
